@@ -143,14 +143,15 @@ Definition violations (g : graph) (c : cfg) (imp : bool) (subjs objs : list filt
 
 Definition opt_list {X} (o : option (list X)) : list X := match o with Some l => l | None => [] end.
 
-(* Rule.assert_applies: returns the (rewritten) configuration and the outcome *)
+(* Rule.assert_applies: returns the configuration the rule object is left with, and the outcome.
+   The alias is rewritten for the evaluation only: the rule object keeps the configuration it was given. *)
 Definition assert_applies (g : graph) (c0 : cfg) : cfg * outcome :=
   if c_any c0 && (c_should c0 || c_only c0) then (c0, Err EConfig) else
   let c := convert_aliases c0 in
-  if negb (required_present c) then (c, Err EConfig) else
-  if negb (behavior_consistent c) then (c, Err EInconsistent) else
+  if negb (required_present c) then (c0, Err EConfig) else
+  if negb (behavior_consistent c) then (c0, Err EInconsistent) else
   let imp := match c_imp c with Some b => b | None => true end in
-  (c,
+  (c0,
    match convert g (opt_list (c_subj c)) with
    | Er e => Err e
    | Ok subjs =>
